@@ -266,6 +266,15 @@ pub fn run(mut run: Run) -> i32 {
             singles.push(Node::L(Leaf::Pg(p.shell.clone(), p.holes.iter().map(|h| reverse_ring(h)).collect())));
         }
     }
+    // zero NET area: the hole(s) cancel the shell (hole equal to the shell in either winding, two holes tiling it) -> outline of the exterior
+    for r in rings(3, 5).into_iter().step_by(if quick { 2 } else { 1 }) {
+        singles.push(Node::L(Leaf::Pg(r.clone(), vec![r.clone()])));
+        singles.push(Node::L(Leaf::Pg(r.clone(), vec![reverse_ring(&r)])));
+        singles.push(Node::Gc(vec![Node::L(Leaf::Pg(r.clone(), vec![rotate_ring(&r, 1)])), Node::L(Leaf::Ln((0, 0), (2, 1)))]));
+        singles.push(Node::Gc(vec![Node::L(Leaf::Pg(r.clone(), vec![r.clone()])), Node::L(Leaf::Pg(vec![(0, 0), (2, 0), (2, 2), (0, 2)], vec![]))]));
+        singles.push(Node::L(Leaf::Mpg(vec![(r.clone(), vec![r.clone()]), (vec![(0, 0), (1, 0), (0, 1)], vec![])])));
+    }
+    singles.push(Node::L(Leaf::Pg(vec![(0, 0), (2, 0), (2, 2), (0, 2)], vec![vec![(0, 0), (2, 0), (2, 2)], vec![(0, 0), (2, 2), (0, 2)]])));
     for s in sequences(&g3, 4).into_iter().step_by(if quick { 7 } else { 1 }) {
         singles.push(Node::L(Leaf::Ls(s.clone())));
         if area2(&s) == 0 {
